@@ -23,6 +23,22 @@ CONTEXTS = [
     "[(λ⟨§⟩;)]", "[1|(2|{3|λ4|⟨5|§⟩;})]", "3(n[§|`x`])", "[§]X", "(§x)",
 ]
 
+# structures to nest a context in (the literal ends up 2-5 structures deep, in every branch position)
+WRAPPERS = ["[§|a]", "[a|§]", "[a|b|§]", "(§)", "(i|§)", "{§|1}", "{1|§}", "λ§;", "λ2|§;", "ƛ§;", "'§;", "µ§;",
+            "⟨§|1⟩", "⟨1|§⟩", "@f|§;", "@f:1|§;", "[§]", "a§b"]
+
+
+def deep_contexts(rng, n):
+    out = []
+    while len(out) < n:
+        c = rng.choice(CONTEXTS)
+        for _ in range(rng.randint(1, 4)):
+            c = rng.choice(WRAPPERS).replace("§", c)
+        # trailing code after the outermost closer shows a literal that closed something early
+        out.append(c + rng.choice(["", "d", "1+", "X"]))
+    return list(dict.fromkeys(out))
+
+
 LITERAL_KINDS = ("string", "twochar", "character", "compressed_number", "compressed_string", "codepage_number", "comment")
 
 
@@ -86,6 +102,16 @@ def gen_payload_cases(env):
     """(context, kind, payload) triples: exhaustive up to the tier's bound, then sampled."""
     exhaustive_len = env.budget(1, 2)
     cases = []
+    deep = deep_contexts(env.rng, env.budget(120, 600))
+    env.note("deep_contexts", len(deep))
+    for ctx in deep:
+        for kind in LITERAL_KINDS:
+            alphabet = SYNTAX if kind != "comment" else SYNTAX + ["`", "»"]
+            ns = payload_lengths(kind)
+            for ch in alphabet:
+                cases.append((ctx, kind, ch * max(1, min(ns)) if kind == "twochar" else ch))
+            if 0 in ns:
+                cases.append((ctx, kind, ""))
     for ctx in CONTEXTS:
         for kind in LITERAL_KINDS:
             for n in payload_lengths(kind):
@@ -100,7 +126,8 @@ def gen_payload_cases(env):
 
 
 def run(env):
-    env.rule = ("payload substitution: 40 fixed contexts x 7 literal kinds (string, two-character string, escaped character, compressed "
+    env.rule = ("payload substitution: 40 fixed contexts, plus 120 (quick) / 600 (thorough) generated contexts that nest a fixed one 1-4 structures "
+                "deeper in every branch position (single-character payloads there), x 7 literal kinds (string, two-character string, escaped character, compressed "
                 "number, compressed string, code-page number, comment) x payloads over the 30 syntax-significant characters, exhaustive for "
                 "payload length <= 1 (quick; length 2 sampled) / <= 2 (thorough); oracle on the implementation: shape of parse(tokenise(p)) with "
                 "literal values blanked equals the shape with a neutral payload; the same sources and grammar-generated programs with "
@@ -111,7 +138,7 @@ def run(env):
     lexcorr.check(env, lexcorr.gen_strings(env, t, 2, env.budget(300, 3000)))
     cases = gen_payload_cases(env)
     srcs = [c.replace("§", literal(k, p)) for c, k, p in cases]
-    base = {(c, k): c.replace("§", literal(k, baseline(k))) for c in CONTEXTS for k in LITERAL_KINDS}
+    base = {(c, k): c.replace("§", literal(k, baseline(k))) for c in dict.fromkeys(c for c, _, _ in cases) for k in LITERAL_KINDS}
     uniq = list(dict.fromkeys(srcs + list(base.values())))
     shapes = dict(zip(uniq, V.pmap(impl_shape, uniq, timeout=10)))
     kinds = {}
